@@ -13,9 +13,11 @@ const (
 	KHeader = "header" // X/0
 	KRow    = "row"    // X/1..X/25
 	KX26    = "x26"
+	KX27    = "x27" // X/27 (linked pages / compositional linking): an enhancement packet like the others
 	KX28    = "x28"
 	KM29    = "m29"
 	KX30    = "x30"
+	KX31    = "x31" // X/31 (independent data services)
 )
 
 // Packet is one teletext packet (the 42 bytes after the framing code: MRAG + 40).
@@ -43,6 +45,22 @@ type Packet struct {
 	Designation uint8    `json:"dc,omitempty"`
 	Triplets    []uint32 `json:"triplets,omitempty"` // 18-bit values, missing ones are zero
 	RawTail     []byte   `json:"raw_tail,omitempty"` // 39 natural-order bytes replacing the triplets
+
+	// FlipBits lists transmission errors: bit k (0 = first transmitted) of the 42 packet bytes is inverted.
+	// Meant for the Hamming 8/4 protected bytes (0..1 address, 2..9 page header): one flipped bit in a byte
+	// is corrected by a receiver, two are detected and the byte (hence the packet / header) is rejected.
+	FlipBits []int `json:"flip_bits,omitempty"`
+}
+
+// HamErrors returns, for the Hamming 8/4 protected byte at index i of the packet, the number of flipped bits.
+func (p Packet) HamErrors(i int) int {
+	n := 0
+	for _, k := range p.FlipBits {
+		if k/8 == i {
+			n++
+		}
+	}
+	return n
 }
 
 // Bytes returns the 42 packet bytes in the natural convention.
@@ -53,6 +71,10 @@ func (p Packet) Bytes() []byte {
 		y = 0
 	case KX26:
 		y = 26
+	case KX27:
+		y = 27
+	case KX31:
+		y = 31
 	case KX28:
 		y = 28
 	case KM29:
@@ -118,6 +140,11 @@ func (p Packet) Bytes() []byte {
 			}
 		}
 	}
+	for _, k := range p.FlipBits {
+		if k >= 0 && k/8 < len(o) {
+			o[k/8] ^= 1 << uint(k%8)
+		}
+	}
 	return o
 }
 
@@ -134,6 +161,8 @@ type Unit struct {
 	Packet  *Packet `json:"packet,omitempty"`
 	Line    byte    `json:"line,omitempty"`    // line offset (0 = 22); field parity bit and reserved bits are set
 	Framing byte    `json:"framing,omitempty"` // 0 = 0xE4
+	// FL, when set, is the whole first payload byte (reserved bits, field parity, line offset) verbatim.
+	FL *uint8 `json:"fl,omitempty"`
 	// Keep >= 0 with Short set truncates the 44-byte unit payload to Keep bytes (data_unit_length = Keep).
 	Short bool `json:"short,omitempty"`
 	Keep  int  `json:"keep,omitempty"`
@@ -173,7 +202,11 @@ func (u Unit) Bytes() []byte {
 		if fr == 0 {
 			fr = 0xe4
 		}
-		pl = append(pl, 0xc0|0x20|line&0x1f, fr) // reserved '11', field parity 1, line offset
+		fl := 0xc0 | 0x20 | line&0x1f // reserved '11', field parity 1, line offset
+		if u.FL != nil {
+			fl = *u.FL
+		}
+		pl = append(pl, fl, fr)
 		for _, b := range u.Packet.Bytes() {
 			pl = append(pl, Wire(b))
 		}
@@ -260,6 +293,82 @@ type ES struct {
 	PID        uint16 `json:"pid"`
 	Descriptor string `json:"descriptor,omitempty"` // "teletext" (0x56), "vbi" (0x46), "" = none (stream type 0x06 without descriptor)
 	PESs       []PES  `json:"pes,omitempty"`
+	// Items of the teletext / VBI teletext descriptor; nil = one item {"eng", subtitle page (0x02), magazine 0, page 88}.
+	Items []DescItem `json:"items,omitempty"`
+	// NoItems gives the descriptor an empty item loop (descriptor_length 0).
+	NoItems bool `json:"no_items,omitempty"`
+	// Before / After: other descriptors of the same elementary stream in front of / behind the teletext one:
+	// "streamid" (0x52), "lang" (0x0A), "subtitling" (0x59, DVB subtitles), "vbidata" (0x45), "private" (0x80),
+	// "teletext" / "vbi" (a further teletext descriptor).
+	Before []string `json:"before,omitempty"`
+	After  []string `json:"after,omitempty"`
+}
+
+// DescItem is one entry of a teletext descriptor (EN 300 468 §6.2.43).
+type DescItem struct {
+	Lang string `json:"lang"` // ISO 639-2, 3 letters
+	Type uint8  `json:"type"` // 0x01 initial page, 0x02 subtitle page, 0x03 additional information, 0x04 programme schedule, 0x05 hearing impaired subtitles
+	Mag  uint8  `json:"mag"`  // 0 = magazine 8
+	Page uint8  `json:"page"` // two decimal digits
+}
+
+func (es ES) teletextItems() []*astits.DescriptorTeletextItem {
+	if es.NoItems {
+		return nil
+	}
+	if es.Items == nil {
+		return []*astits.DescriptorTeletextItem{{Language: []byte("eng"), Type: astits.TeletextTypeTeletextSubtitlePage, Magazine: 0, Page: 88}}
+	}
+	var o []*astits.DescriptorTeletextItem
+	for _, it := range es.Items {
+		o = append(o, &astits.DescriptorTeletextItem{Language: []byte(it.Lang), Type: it.Type, Magazine: it.Mag, Page: it.Page})
+	}
+	return o
+}
+
+func (es ES) descriptor(kind string) *astits.Descriptor {
+	switch kind {
+	case "teletext":
+		return &astits.Descriptor{Tag: astits.DescriptorTagTeletext, Teletext: &astits.DescriptorTeletext{Items: es.teletextItems()}}
+	case "vbi":
+		return &astits.Descriptor{Tag: astits.DescriptorTagVBITeletext, VBITeletext: &astits.DescriptorTeletext{Items: es.teletextItems()}}
+	case "streamid":
+		return &astits.Descriptor{Tag: astits.DescriptorTagStreamIdentifier, StreamIdentifier: &astits.DescriptorStreamIdentifier{ComponentTag: 0x56}}
+	case "lang":
+		return &astits.Descriptor{Tag: astits.DescriptorTagISO639LanguageAndAudioType, ISO639LanguageAndAudioType: &astits.DescriptorISO639LanguageAndAudioType{Language: []byte("eng")}}
+	case "subtitling":
+		return &astits.Descriptor{Tag: astits.DescriptorTagSubtitling, Subtitling: &astits.DescriptorSubtitling{Items: []*astits.DescriptorSubtitlingItem{{Language: []byte("eng"), Type: 0x10, CompositionPageID: 1, AncillaryPageID: 1}}}}
+	case "vbidata":
+		return &astits.Descriptor{Tag: astits.DescriptorTagVBIData, VBIData: &astits.DescriptorVBIData{Services: []*astits.DescriptorVBIDataService{{DataServiceID: astits.VBIDataServiceIDEBUTeletext, Descriptors: []*astits.DescriptorVBIDataDescriptor{{FieldParity: true, LineOffset: 22}}}}}}
+	case "private":
+		return &astits.Descriptor{Tag: 0x80, UserDefined: []byte{0x56, 0x46}}
+	}
+	panic("ref/teletext: unknown descriptor kind " + kind)
+}
+
+// descriptors of the elementary stream in PMT order.
+func (es ES) descriptors() []*astits.Descriptor {
+	var o []*astits.Descriptor
+	for _, k := range es.Before {
+		o = append(o, es.descriptor(k))
+	}
+	if es.Descriptor != "" {
+		o = append(o, es.descriptor(es.Descriptor))
+	}
+	for _, k := range es.After {
+		o = append(o, es.descriptor(k))
+	}
+	return o
+}
+
+// IsTeletext reports that the PMT announces the elementary stream as teletext (descriptor 0x56 or 0x46).
+func (es ES) IsTeletext() bool {
+	for _, k := range append(append([]string{es.Descriptor}, es.Before...), es.After...) {
+		if k == "teletext" || k == "vbi" {
+			return true
+		}
+	}
+	return false
 }
 
 // Stream is a whole transport stream: the elementary streams in PMT order plus multiplexing choices.
@@ -283,13 +392,7 @@ func (s Stream) Bytes() []byte {
 	m := astits.NewMuxer(context.Background(), &buf)
 	for _, es := range s.ES {
 		e := astits.PMTElementaryStream{ElementaryPID: es.PID, StreamType: astits.StreamTypePrivateData}
-		item := &astits.DescriptorTeletextItem{Language: []byte("eng"), Type: astits.TeletextTypeTeletextSubtitlePage, Magazine: 0, Page: 88}
-		switch es.Descriptor {
-		case "teletext":
-			e.ElementaryStreamDescriptors = []*astits.Descriptor{{Tag: astits.DescriptorTagTeletext, Teletext: &astits.DescriptorTeletext{Items: []*astits.DescriptorTeletextItem{item}}}}
-		case "vbi":
-			e.ElementaryStreamDescriptors = []*astits.Descriptor{{Tag: astits.DescriptorTagVBITeletext, VBITeletext: &astits.DescriptorTeletext{Items: []*astits.DescriptorTeletextItem{item}}}}
-		}
+		e.ElementaryStreamDescriptors = es.descriptors()
 		if err := m.AddElementaryStream(e); err != nil {
 			panic("ref/teletext: " + err.Error())
 		}
